@@ -15,6 +15,7 @@ THEOREMS = [
     "Mpir.Mm1.next_size_mono",
     "Mpir.Mm1.mpz_powm_scratch_ok_even",
     "Mpir.Mm1.mpz_powm_crt_indices_ok",
+    "Mpir.Mm1.mpz_powm_crt_mem_correct",
 ]
 TRUSTED = ["hand-written model lean/Mpir/Model/Mulmod2expm1.lean: mpn_mulmod_2expm1_basecase, mpn_mulmod_2expm1 (split into the "
            "2^h-1 / 2^h+1 halves on both the k == 0 and k != 0 paths, recursion, flags c1*2+c2, recombination, final halving), "
